@@ -374,9 +374,29 @@ def s3(run: Run, prog: Program):
                     f"stores node weights as '{name}': saved node weights are never "
                     f"found again")
     # each loader tests and then reads the attribute
+    def closure(m):
+        """m and the private helpers it calls (obj._h(...), Cls._h(...), _h(...)),
+        transitively: a loader may delegate the test-and-read to one helper"""
+        seen, work = [m], [m]
+        while work:
+            g = work.pop()
+            for c in ast.walk(g.node):
+                if not isinstance(c, ast.Call):
+                    continue
+                nm = c.func.attr if isinstance(c.func, ast.Attribute) else \
+                    c.func.id if isinstance(c.func, ast.Name) else ""
+                if not nm.startswith("_") or nm.startswith("__"):
+                    continue
+                for C_ in ([m.cls] if m.cls is not None else []):
+                    h = prog.lookup(C_, nm)
+                    if h is not None and h not in seen:
+                        seen.append(h)
+                        work.append(h)
+        return seen
     for cname, mname in LOADERS:
         m = prog.classes[cname].methods[mname]
-        kinds = {k for f, k, v, _ in consts if f is m}
+        cl = closure(m)
+        kinds = {k for f, k, v, _ in consts if any(f is g for g in cl)}
         ok = {"in", "get_attribute_values"} <= kinds
         run.oblige("S3", f"{cname}.{mname}:restores-node-weights", ok)
         if not ok:
@@ -643,6 +663,16 @@ def s6(run: Run, prog: Program):
         m = prog.classes[cname].methods.get(mname)
         if m is None:
             raise AnalysisError(f"{cname}.{mname} vanished")
+        # a fill loop factored into a private helper is analysed in place
+        import copy as _copy
+        from .idioms import inline_simple_helpers
+
+        def _res(hn, _C=prog.classes[cname]):
+            h = prog.lookup(_C, hn)
+            return h.node if h is not None and hn.startswith("_") and \
+                not hn.startswith("__") else None
+        m = _copy.copy(m)
+        m.node = inline_simple_helpers(m.node, _res)
         loops = [l for l in ast.walk(m.node) if isinstance(l, ast.For)
                  and ast.unparse(l.iter).endswith(".es")]
         mirrored = False
